@@ -339,13 +339,14 @@ def oracle(a, b, how, root_name, leg_mode='exact', identity_ids=None):
     except Exception as e:
         return [('%s.compare-raised:%s' % (how, root_name), repr(e) + traceback.format_exc()[-600:])]
     fails = []
-    for path, what in diffs:
+    for path, what, owner in diffs:
         if what.startswith('identity'):
             kind = 'identity-lost' if 'not shared in the copy' in what else 'identity-merged'
-            fails.append(('%s.%s:%s:%s' % (how, kind, root_name, norm_path(path)), '%s: %s' % (path, what)))
+            fails.append(('%s.%s:%s' % (how, kind, owner), '[%s] %s: %s' % (root_name, path, what)))
         else:
-            what_n = re.sub(r'[-+]?\d[\d.e+-]*|\'[^\']*\'', '#', what)[:60]
-            fails.append(('%s.not-equal:%s:%s:%s' % (how, root_name, norm_path(path), what_n), '%s: %s' % (path, what)))
+            what_n = re.sub(r'\[[^\]]*\]|\([^)]*\)', '[..]', what)
+            what_n = re.sub(r'[-+]?\d[\d.e+-]*|\'[^\']*\'|"[^"]*"', '#', what_n)[:70]
+            fails.append(('%s.not-equal:%s:%s' % (how, owner, what_n), '[%s] %s: %s' % (root_name, path, what)))
     if not fails:
         fails += sanity(b, how, root_name)
     return fails[:3]
@@ -406,11 +407,11 @@ def eval_object(obj, root_name, fmt, case, want_loaded_graph=False, skip_hdf5_or
     """Everything on the real code for one root object. Returns a picklable record."""
     rec = {'case': case, 'fails': [], 'hist': collections.Counter(), 'heap': None, 'file': None, 'loaded': None,
            'unsupported': [], 'nontrivial': False}
-    how = 'hdf5[flat]' if fmt == 'flat' else 'hdf5'   # blocks/compact/default are lossless: one signature space
+    how = 'hdf5'
     rt = hdf5_roundtrip(obj, fmt)
     if rt['save_error']:
         who, et, msg = rt['save_error']
-        rec['fails'].append(('%s.save-raises:%s:%s' % (how, who, et), msg))
+        rec['fails'].append(('%s.save-raises:%s:%s' % (how, who, et), '[format %s] %s' % (fmt, msg)))
     else:
         early = G.early_map(rt.get('events', []))
         R = G.Reflect(rt['saver'].trace, early)
@@ -505,7 +506,7 @@ def eval_zoo(case):
     wrap = case.get('wrap', 'dict')
     # the object twice below one root: identity of the two references must survive
     root = {'obj': obj, 'again': [obj, None]} if wrap == 'dict' else [obj, (obj,)]
-    rec = eval_object(root, short, case.get('fmt'), case)
+    rec = eval_object(root, short, case.get('fmt'), case, do_other=case.get('fmt') in (None, 'blocks'))
     h = collections.Counter(rec['hist'])
     h['class.%s' % short] += 1
     h['format.%s' % (case.get('fmt') or 'default')] += 1
@@ -563,7 +564,7 @@ def eval_linalg(case):
         obj = LG.gen_array(rng, chinfo)
     other = LG.gen_array(rng, chinfo) if rng.random() < 0.5 else None
     root = {'x': obj, 'list': [obj, other], 'chinfo': chinfo}
-    rec = eval_object(root, type(obj).__name__, case['fmt'], case)
+    rec = eval_object(root, type(obj).__name__, case['fmt'], case, do_other=case['fmt'] == 'blocks')
     h = collections.Counter(rec['hist'])
     h['linalg.%s.%s' % (what, case['fmt'])] += 1
     if what == 'array':
